@@ -5,22 +5,20 @@
 // Build: ctx.harness(..., extra=["-I<repo>/plugin"]).   Doubles are 16 hex digits everywhere.
 //
 //   pid kp=<h> ki=<h> kd=<h> imax=<h|-> slew=<h|-> dt=<h> dyn=<0 none|1 integrator|2 filter|3 filterexact> tau=<h>
-//       early=<0|1> clim=<h,h|-> integ=<0 Euler|2 implicit|3 implicitfast> u=<h,h,...>  [| in...]
+//       early=<0|1> clim=<h,h|-> integ=<0 Euler|2 implicit|3 implicitfast> ownexact=<?|0|1> u=<h,h,...>  [| in...]
+//     (ownexact: "?" without inputs; with inputs the value the trace reported: whether the real mj_nextActivation
+//      advances a plugin-owned slot of a filterexact actuator with the exact-filter rule (1) or by Euler (0))
 //     One slide-joint body; three actuators on it: a filter-type general actuator, the PID plugin actuator, another
 //     filter-type actuator (their act / act_dot / force entries surround the plugin's).  ctrl of the plugin actuator
 //     follows u, one mj_step per entry.
-//     without "|":  trace:  per step  time ctrl len vel nact nactdot | force actdotI actdotP actI' actP' ;   then
-//                   "foot=<ok|BAD...> nbr=<ok|BAD>"  (see below)
+//     without "|":  "trace nact=<K> ownexact=<0|1>" then per step  time ctrl len vel nact nactdot | force actdotI actdotP
+//                   actI' actP' ;   then "foot=<ok|BAD...> warn=<n>"  (see below)
 //     with "| in":  in = per step "time ctrl len vel nact nactdot" (exactly what the trace printed); they are checked
 //                   against the re-run (else "input-mismatch"), output = per step "force actdotI actdotP actI' actP' ;"
 //     (actI / actP: the plugin's integral / previous-setpoint activation, "-" when the configuration has none;
 //      nact / nactdot: the native activation of the actuator (dyn != 0) and its act_dot, "-" for dyn=0)
 //     foot: plugin->actuator_act_dot and plugin->compute are called directly on a poisoned copy of the step's mjData;
 //           every byte of d->buffer they change must lie in the actuator's own act_dot slice / actuator_force entry.
-//     nbr:  act, act_dot and actuator_force of the two neighbouring actuators equal those of a twin model without
-//           the plugin actuator's influence?  (not meaningful: they share the joint) -> instead: their act_dot/force obey
-//           their own filter law bit-for-bit (recomputed from ctrl/act with the engine's formulas is a re-implementation,
-//           so it is NOT done here; the footprint check above is the slice-isolation evidence).
 //   cable n=<N> first=<0 none|1 ball|2 free> flat=<0|1> twist=<h> bend=<h> vmax=<h> geom=<3 capsule|5 cylinder|6 box>
 //       size=<h,h,h> len=<h> quats=<4N h> qseed=<int|ref|straight>  [| in...]
 //     Chain of N bodies (body k child of k-1, offset len along x, orientation quats[k]), ball joints, one cable plugin
@@ -45,6 +43,7 @@
 
 #include <mujoco/mujoco.h>
 #include <mujoco/mjxmacro.h>
+#include "engine/engine_support.h"
 #include "actuator/pid.cc"
 #include "elasticity/cable.cc"
 
@@ -119,12 +118,13 @@ struct PidCfg {
   double kp, ki, kd, imax, slew, dt, tau, clo, chi;
   bool has_imax, has_slew, has_clim;
   int dyn, early, integ;
+  std::string ownexact;   // "?" (trace mode) or the value measured earlier
   std::vector<double> u;
 };
 
 bool parse_pid(const KV& kv, PidCfg* c) {
-  static const char* keys[] = {"kp", "ki", "kd", "imax", "slew", "dt", "dyn", "tau", "early", "clim", "integ", "u"};
-  if (kv.size() != 12) return false;
+  static const char* keys[] = {"kp", "ki", "kd", "imax", "slew", "dt", "dyn", "tau", "early", "clim", "integ", "ownexact", "u"};
+  if (kv.size() != 13) return false;
   for (const char* k : keys) if (!kv.count(k)) return false;
   if (!rd(kv.at("kp"), &c->kp) || !rd(kv.at("ki"), &c->ki) || !rd(kv.at("kd"), &c->kd) || !rd(kv.at("dt"), &c->dt) || !rd(kv.at("tau"), &c->tau)) return false;
   c->has_imax = kv.at("imax") != "-";
@@ -137,6 +137,8 @@ bool parse_pid(const KV& kv, PidCfg* c) {
   c->dyn = atoi(kv.at("dyn").c_str()); c->early = atoi(kv.at("early").c_str()); c->integ = atoi(kv.at("integ").c_str());
   if (c->dyn < 0 || c->dyn > 3 || c->early < 0 || c->early > 1 || (c->integ != 0 && c->integ != 2 && c->integ != 3)) return false;
   if (!rdlist(kv.at("u"), &c->u) || c->u.empty()) return false;
+  c->ownexact = kv.at("ownexact");
+  if (c->ownexact != "?" && c->ownexact != "0" && c->ownexact != "1") return false;
   return true;
 }
 
@@ -198,6 +200,7 @@ void do_pid(const std::vector<std::string>& tok) {
   bool verify = bar < tok.size();
   size_t T = c.u.size();
   if (verify && tok.size() - bar - 1 != 6 * T) { printf("bad-op\n"); return; }
+  if (verify == (c.ownexact == "?")) { printf("bad-op\n"); return; }
   std::string err;
   nwarn = 0;
   mjModel* m = build_pid(c, &err);
@@ -217,6 +220,17 @@ void do_pid(const std::vector<std::string>& tok) {
   int iN = c.dyn != 0 ? adr + num - 1 : -1;
   int inst = m->actuator_plugin[A];
   const mjpPlugin* plugin = mjp_getPluginAtSlot(m->plugin[inst]);
+  // how does the engine of the tree advance a plugin-owned slot of a filterexact actuator?  Ask the real
+  // mj_nextActivation: from act = 0 with act_dot = 1 it returns the step it multiplies act_dot with.
+  int ownexact = 0;
+  if (c.dyn == 3 && (iI >= 0 || iP >= 0)) {
+    int slot = iI >= 0 ? iI : iP;
+    mjtNum save = d->act[slot];
+    d->act[slot] = 0;
+    ownexact = mj_nextActivation(m, d, A, slot, 1.0) != m->opt.timestep;
+    d->act[slot] = save;
+  }
+  if (verify && atoi(c.ownexact.c_str()) != ownexact) { printf("input-mismatch ownexact\n"); mj_deleteData(d); mj_deleteModel(m); return; }
   std::string out, footres = "ok";
   bool mismatch = false; size_t mmstep = 0;
   for (size_t t = 0; t < T; t++) {
@@ -260,7 +274,7 @@ void do_pid(const std::vector<std::string>& tok) {
   if (verify) {
     if (mismatch) printf("input-mismatch step %zu\n", mmstep); else printf("%s\n", out.c_str());
   } else {
-    printf("trace nact=%d %sfoot=%s warn=%d\n", num, out.c_str(), footres.c_str(), nwarn);
+    printf("trace nact=%d ownexact=%d %sfoot=%s warn=%d\n", num, ownexact, out.c_str(), footres.c_str(), nwarn);
   }
   mj_deleteData(d);
   mj_deleteModel(m);
@@ -459,6 +473,7 @@ int main() {
     if (tok[0] == "pid") do_pid(tok);
     else if (tok[0] == "cable") do_cable(tok);
     else if (tok[0] == "kern") do_kern(tok);
+    else if (tok[0] == "genid" && tok.size() == 2) printf("genid %s\n", tok[1].c_str());   // echo: the check supplies the id of its tree
     else printf("bad-op\n");
     errarmed = 0;
     fflush(stdout);
